@@ -1,4 +1,4 @@
-import YaegiVerif.Proofs.C11Reg
+import YaegiVerif.Proofs.C11Deps
 /-
   C11, helper lemmas 4: one chunk. The success form of `evalChunk` on the domain, the invariant it
   keeps, and the key step: evaluating `t` and then `rest` as a file is evaluating `t ++ rest` as a file.
@@ -16,6 +16,8 @@ structure Good (fx : Facts) : Prop where
   tokType : fx.declTokens.contains "type" = true
   tokOther : fx.declTokens.contains "other" = false
   wrap : fx.wrapDefault = true
+  mainOwn : fx.mainOwnOnly = true
+  depsPending : fx.depsPendingOnly = true
 
 /-- invariant of the states a session goes through -/
 structure WF (s : State) : Prop where
@@ -223,32 +225,25 @@ theorem phaseSorted_append (a b : List Item) (h : phaseSortedFrom 0 (a ++ b) = t
 
 /-! ### dependencies of the initialisers, local scope, main -/
 
-theorem varDepsOk_of_depsLocal (T : Tab) (items : List Item) (h : depsLocal items = true) : varDepsOk T items = true := by
-  unfold varDepsOk
-  unfold depsLocal at h
-  simp only [List.all_eq_true] at h ⊢
-  intro it hit y hy
-  have := h it hit y hy
-  split <;> simp_all
-
-theorem chunkVars_append (a b : List Item) : chunkVars (a ++ b) = chunkVars a ++ chunkVars b := by
-  simp [chunkVars, List.filterMap_append]
-
-theorem depsLocal_append (a b : List Item) (ha : depsLocal a = true) (hb : depsLocal b = true) : depsLocal (a ++ b) = true := by
-  unfold depsLocal at *
-  simp only [List.all_eq_true, List.mem_append, chunkVars_append, List.contains_eq_mem, List.mem_append,
-    decide_eq_true_eq] at *
-  intro it hit y hy
-  rcases hit with hit | hit
-  · exact Or.inl (ha it hit y hy)
-  · exact Or.inr (hb it hit y hy)
-
-theorem depsLocal_of_stmts (t : List Item) (h : t.all (·.isStmt) = true) : depsLocal t = true := by
-  unfold depsLocal
-  simp only [List.all_eq_true] at h ⊢
-  intro it hit y hy
-  have := h it hit
-  cases it <;> simp_all [Item.isStmt, Item.initVars]
+/-- **no variable of a chunk under definition-before-use waits for itself**, wherever the chunk
+    starts and whatever the session has declared before: genGlobalVarDecl succeeds -/
+theorem varDepsOk_of_scoped (fx : Facts) (hg : Good fx) (s : State) (hwf : WF s) (items : List Item)
+    (hs : scopedOk fx s.c.tab.nvars (s.c.tab, s.c.code.length) items = true) (r : List CBody × List (Nat × Act))
+    (hr : compileItems (regItems fx s.c.tab.nvars (s.c.tab, s.c.code.length) items).1 s.c.code.length items = some r) :
+    varDepsOk fx s.c.tab.nvars (varDeps (s.c.code ++ r.1) r.2) = true := by
+  have h := deps_below fx hg.alloc s.c.tab.nvars items (s.c.tab, s.c.code.length) s.c.code _ r [] rfl hwf.below hwf.closed hs
+    (Ext.refl _) hr
+  unfold varDepsOk varDeps
+  rw [List.all_eq_true]
+  intro q hq
+  obtain ⟨a, ha, hqa⟩ := List.mem_filterMap.mp hq
+  have hmem : q ∈ r.2.filterMap (fun a => a.2.deps (s.c.code ++ r.1 ++ [])) := by
+    rw [List.append_nil]
+    exact List.mem_filterMap.mpr ⟨a, (List.mem_filter.mp ha).1, hqa⟩
+  have hlt := h q hmem
+  simp only [hg.depsPending, Bool.true_or, Bool.and_true, Bool.not_eq_true', List.contains_eq_mem, decide_eq_false_iff_not]
+  intro hc
+  exact Nat.lt_irrefl _ (hlt q.1 hc)
 
 theorem defineNames_append (a b : List Item) : defineNames (a ++ b) = defineNames a ++ defineNames b := by
   simp [defineNames, List.filterMap_append]
@@ -297,26 +292,51 @@ theorem localsOk_of_decls (t : List Item) (h : t.all (fun i => !i.isStmt) = true
   rw [defineNames_of_decls t h, stmtsOk_of_decls t h]
   simp
 
-theorem mainCall_nil (fx : Facts) (T : Tab) (h : lookup "main" T.syms = none) : mainCall fx T = [] := by
+theorem noMain_lookup (fx : Facts) (st : Nat) (s : State) (items : List Item) (p2 : Nat) (h : noMain items = true) :
+    lookup "main" (regItems fx st (s.c.tab, p2) items).1.syms = lookup "main" s.c.tab.syms := by
+  unfold noMain at h
+  simp only [List.all_eq_true, bne_iff_ne, ne_eq] at h
+  exact regItems_other fx st "main" items _ (fun it hit => h it hit)
+
+/-- a `main` declared by an earlier text does not run again: its node is not one of this chunk's -/
+theorem mainCall_nil (fx : Facts) (hg : Good fx) (s : State) (hwf : WF s) (T : Tab)
+    (h : lookup "main" T.syms = lookup "main" s.c.tab.syms) : mainCall fx s.c.code.length T = [] := by
   unfold mainCall
   split
-  · simp [h]
+  · rw [h]
+    cases hl : lookup "main" s.c.tab.syms with
+    | none => rfl
+    | some v =>
+      have := hwf.below.1 "main" v hl
+      cases v <;> simp only [SymOk] at this <;> simp [hg.mainOwn, this]
   · rfl
 
-theorem noMain_lookup (fx : Facts) (st : Nat) (s : State) (items : List Item) (p2 : Nat) (h : noMain s items = true) :
-    lookup "main" (regItems fx st (s.c.tab, p2) items).1.syms = none := by
-  unfold noMain at h
-  simp only [Bool.and_eq_true, Option.isNone_iff_eq_none, List.all_eq_true, bne_iff_ne, ne_eq] at h
-  rw [regItems_other fx st "main" items _ (fun it hit => h.2 it hit)]
-  exact h.1
+theorem scoped_noSelf (fx : Facts) (st : Nat) (items : List Item) : ∀ p : Tab × Nat,
+    scopedOk fx st p items = true → ∀ it ∈ items, noSelf it = true := by
+  induction items with
+  | nil => intro p _ it hit; cases hit
+  | cons jt rest ih =>
+    intro p h it hit
+    simp only [scopedOk_cons, Bool.and_eq_true] at h
+    rcases List.mem_cons.mp hit with rfl | hit
+    · exact h.1.1.2
+    · exact ih _ h.2 it hit
+
+/-- an initialiser that does not mention its own variable can be typed -/
+theorem no_typeLoop (fx : Facts) (st : Nat) (items : List Item) (p : Tab × Nat) (T0 : Tab)
+    (h : scopedOk fx st p items = true) : items.any (typeLoop T0) = false := by
+  rw [List.any_eq_false]
+  intro it hit
+  have := scoped_noSelf fx st items p h it hit
+  cases it <;> simp_all [typeLoop, noSelf]
 
 /-! ### the success form of a chunk -/
 
 /-- on the domain a chunk compiles and runs: explicit form of the resulting state -/
-theorem evalChunk_ok (fx : Facts) (fuel : Nat) (mode : Mode) (s : State) (items : List Item)
+theorem evalChunk_ok (fx : Facts) (hg : Good fx) (fuel : Nat) (mode : Mode) (s : State) (hwf : WF s) (items : List Item)
     (hs : scopedOk fx s.c.tab.nvars (s.c.tab, s.c.code.length) items = true)
-    (hl : mode = .file → localsOk items = true) (hd : mode = .file → depsLocal items = true)
-    (hm : noMain s items = true) (hp : phaseSortedFrom 0 items = true) :
+    (hl : mode = .file → localsOk items = true)
+    (hm : noMain items = true) (hp : phaseSortedFrom 0 items = true) :
     ∃ r, compileItems (regItems fx s.c.tab.nvars (s.c.tab, s.c.code.length) items).1 s.c.code.length items = some r ∧
       evalChunk fx fuel mode s items =
         { c := ⟨(regItems fx s.c.tab.nvars (s.c.tab, s.c.code.length) items).1, s.c.code ++ r.1⟩,
@@ -325,7 +345,9 @@ theorem evalChunk_ok (fx : Facts) (fuel : Nat) (mode : Mode) (s : State) (items 
   obtain ⟨r, hr, _⟩ := scoped_compile fx _ items (s.c.tab, s.c.code.length) _ hs (Ext.refl _)
   refine ⟨r, hr, ?_⟩
   have hdup := (scoped_fresh fx _ items _ hs).2
-  have hmain := mainCall_nil fx _ (noMain_lookup fx s.c.tab.nvars s items s.c.code.length hm)
+  have hmain := mainCall_nil fx hg s hwf _ (noMain_lookup fx s.c.tab.nvars s items s.c.code.length hm)
+  have hdeps := varDepsOk_of_scoped fx hg s hwf items hs r hr
+  have hty := no_typeLoop fx _ items _ s.c.tab hs
   have hprog := progOf_of_sorted mode _ _ items r hr hp
   unfold evalChunk
   simp only [hdup, Bool.false_eq_true, if_false]
@@ -333,7 +355,7 @@ theorem evalChunk_ok (fx : Facts) (fuel : Nat) (mode : Mode) (s : State) (items 
   | block =>
     simp only [reduceCtorEq, decide_false, Bool.false_and, Bool.false_eq_true, if_false, hr, hmain, List.append_nil, hprog]
   | file =>
-    simp only [hl rfl, hr, varDepsOk_of_depsLocal _ items (hd rfl), hmain, List.append_nil, hprog, decide_true, Bool.not_true,
+    simp only [hl rfl, hr, hdeps, hty, hmain, List.append_nil, hprog, decide_true, Bool.not_true, Bool.or_false,
       Bool.and_false, Bool.false_eq_true, if_false]
 
 /-- a successful chunk keeps the invariant -/
@@ -363,8 +385,7 @@ theorem chunk_wf (fx : Facts) (hg : Good fx) (s : State) (items : List Item) (hw
     main) and then `rest` as a file is evaluating `t ++ rest` as one file** — on the domain. -/
 theorem evalChunk_append (fx : Facts) (hg : Good fx) (fuel : Nat) (m : Mode) (s : State) (t rest : List Item)
     (hwf : WF s) (hdom : Dom fx s (t ++ rest) = true)
-    (hm : (m = .file ∧ t.all (fun i => !i.isStmt) = true) ∨ (m = .block ∧ t.all (·.isStmt) = true))
-    (hdt : depsLocal t = true) (hdr : depsLocal rest = true) :
+    (hm : (m = .file ∧ t.all (fun i => !i.isStmt) = true) ∨ (m = .block ∧ t.all (·.isStmt) = true)) :
     evalChunk fx fuel .file (evalChunk fx fuel m s t) rest = evalChunk fx fuel .file s (t ++ rest)
     ∧ WF (evalChunk fx fuel m s t) ∧ Dom fx (evalChunk fx fuel m s t) rest = true := by
   unfold Dom DefBeforeUse at hdom
@@ -374,22 +395,21 @@ theorem evalChunk_append (fx : Facts) (hg : Good fx) (fuel : Nat) (m : Mode) (s 
   simp only [Bool.and_eq_true] at hsc
   obtain ⟨hsc1, hsc2⟩ := hsc
   obtain ⟨hph1, hph2⟩ := phaseSorted_append t rest hph
-  have hnm1 : noMain s t = true := by
+  have hnm1 : noMain t = true := by
     unfold noMain at hnm ⊢
     simp only [Bool.and_eq_true, List.all_append] at hnm ⊢
-    exact ⟨hnm.1, hnm.2.1⟩
+    exact hnm.1
   have hloc1 : m = .file → localsOk t = true := by
     intro hmf
     rcases hm with ⟨_, h⟩ | ⟨h, _⟩
     · exact localsOk_of_decls t h
     · rw [hmf] at h; cases h
   -- first chunk
-  obtain ⟨rt, hrt, e1⟩ := evalChunk_ok fx fuel m s t hsc1 hloc1 (fun _ => hdt) hnm1 hph1
+  obtain ⟨rt, hrt, e1⟩ := evalChunk_ok fx hg fuel m s hwf t hsc1 hloc1 hnm1 hph1
   -- whole
   have hscW : scopedOk fx s.c.tab.nvars (s.c.tab, s.c.code.length) (t ++ rest) = true := by
     rw [scopedOk_append]; simp [hsc1, hsc2]
-  obtain ⟨rw_, hrw, eW⟩ := evalChunk_ok fx fuel .file s (t ++ rest) hscW (fun _ => hloc)
-    (fun _ => depsLocal_append t rest hdt hdr) hnm hph
+  obtain ⟨rw_, hrw, eW⟩ := evalChunk_ok fx hg fuel .file s hwf (t ++ rest) hscW (fun _ => hloc) hnm hph
   -- names for the pieces
   have hp1snd : (regItems fx s.c.tab.nvars (s.c.tab, s.c.code.length) t).2 = s.c.code.length + nBodies t := regItems_snd ..
   have hcl1 := compileItems_code_length _ t _ rt hrt
@@ -415,12 +435,10 @@ theorem evalChunk_append (fx : Facts) (hg : Good fx) (fuel : Nat) (m : Mode) (s 
     simp only
     rw [hlen1, ← hp1snd, scopedOk_start fx hg.alloc _ s.c.tab.nvars]
     exact hsc2
-  have hnm2 : noMain (evalChunk fx fuel m s t) rest = true := by
-    have h1 := noMain_lookup fx s.c.tab.nvars s t s.c.code.length hnm1
+  have hnm2 : noMain rest = true := by
     unfold noMain at hnm ⊢
     simp only [Bool.and_eq_true, List.all_append] at hnm ⊢
-    refine ⟨?_, hnm.2.2⟩
-    rw [hc1]; simp [h1]
+    exact hnm.2
   have hloc2 := localsOk_append_right t rest hloc
   have hDom2 : Dom fx (evalChunk fx fuel m s t) rest = true := by
     unfold Dom DefBeforeUse
@@ -428,7 +446,7 @@ theorem evalChunk_append (fx : Facts) (hg : Good fx) (fuel : Nat) (m : Mode) (s 
     exact ⟨⟨⟨hsc2', hph2⟩, hloc2⟩, hnm2⟩
   refine ⟨?_, hWF1, hDom2⟩
   -- second chunk
-  obtain ⟨rr, hrr, e2⟩ := evalChunk_ok fx fuel .file (evalChunk fx fuel m s t) rest hsc2' (fun _ => hloc2) (fun _ => hdr) hnm2 hph2
+  obtain ⟨rr, hrr, e2⟩ := evalChunk_ok fx hg fuel .file (evalChunk fx fuel m s t) hWF1 rest hsc2' (fun _ => hloc2) hnm2 hph2
   rw [e2, eW]
   rw [hreg2] at hrr ⊢
   -- the whole compiles to the concatenation
